@@ -87,10 +87,69 @@ def clearing(rep, tier):
     require(rep, cst.H_EFF_G2 == H_EFF_G2 == h2 * (3 * x ** 2 - 3), "H_EFF_G2 = h2 * (3x^2 - 3) = the RFC 9380 8.8.2 literal", None, rp)
     require(rep, h1 % 2 == 1 and h2 % 2 == 1 and __import__("math").gcd(h1, r) == 1 and __import__("math").gcd(h2, r) == 1, "ground: cofactors odd and coprime to r", None, rp)
     log = []
-    with world.patched(cc, multiply=lambda pt, n: log.append((pt, n)) or ("MUL", pt, n)):
-        a = cc.multiply_clear_cofactor_G1("P")
-        b = cc.multiply_clear_cofactor_G2("Q")
-    require(rep, a == ("MUL", "P", H_EFF_G1) and b == ("MUL", "Q", H_EFF_G2) and len(log) == 2, "cofactor clearing is multiply(P, h_eff) for G1 and G2", None, rp)
+    class Opaque:
+        """an arbitrary point: the clearing functions may only hand it to multiply."""
+        def __init__(self, nm):
+            self.nm = nm
+    PP, QQ = Opaque("P"), Opaque("Q")
+    a = b = None
+    try:
+        with world.patched(cc, multiply=lambda pt, n: log.append((pt, n)) or ("MUL", pt, n)):
+            a = cc.multiply_clear_cofactor_G1(PP)
+            b = cc.multiply_clear_cofactor_G2(QQ)
+    except Exception as e:
+        rep.note("call trace of the clearing functions on an opaque point raised %r" % (e,))
+    if a == ("MUL", PP, H_EFF_G1) and b == ("MUL", QQ, H_EFF_G2) and len(log) == 2:
+        rep.ok("cofactor clearing is exactly one multiply(P, h_eff) for G1 and G2 and never inspects the point (call trace on an opaque point)")
+    else:
+        rep.note("the clearing functions are not a single multiply(P, h_eff) on an opaque point; the exponent/torsion model below decides")
+    r = PINNED["bls12_381"]["r"]
+    for nm, fn_name, heff in (("G1", "multiply_clear_cofactor_G1", H_EFF_G1), ("G2", "multiply_clear_cofactor_G2", H_EFF_G2)):
+        def run(ctx, fn_name=fn_name, heff=heff):
+            k, t = SymZ.var("k"), SymZ.var("t")
+
+            def mul(P, n):
+                n = SymZ.lift(n)
+                if not isinstance(P, TP) or n is None or not n._is_const():
+                    raise core.Unsupported("model multiply(%r, %r)" % (P, n))
+                nv = n._cval()
+                nt = SymZ.var(ctx.fresh_name("ntau"))
+                ctx.add_fact(z3.Implies(P.t.t == 0, nt.t == 0))
+                if nv % r == 0 and nv != 0:
+                    ctx.add_fact((nt.t == 0) == (P.t.t == 0))       # gcd(r, |T|) = 1
+                if nv % heff == 0:
+                    ctx.add_fact(nt.t == 0)                           # h_eff annihilates the cofactor torsion (trusted)
+                if nv % r == 1:
+                    ctx.add_fact((nt.t == P.t.t))
+                return TP(P.k * nv, nt)
+
+            def is_inf(P):
+                return SymBool(z3.And(P.k.t % r == 0, P.t.t == 0))
+
+            def unsupported(*a, **kw):
+                raise core.Unsupported("point operation other than multiply / is_inf inside cofactor clearing is not modelled")
+            names = dict(multiply=mul, is_inf=is_inf)
+            for extra in ("add", "double", "neg", "eq", "normalize", "is_on_curve"):
+                if extra in cc.__dict__:
+                    names[extra] = unsupported
+            with world.patched(cc, **names):
+                out = getattr(cc, fn_name)(TP(k, t))
+            return k, t, out
+
+        def on_path(pth, nm=nm, heff=heff):
+            rep.paths += 1
+            if pth.kind != "ret":
+                g_, mm = pth.ctx.satisfiable()
+                if g_ != "unsat":
+                    rep.fail("%s cofactor clearing raised %r" % (nm, pth.value), rp)
+                return
+            k, t, out = pth.value
+            if not isinstance(out, TP):
+                rep.fail("%s cofactor clearing returned %r" % (nm, out), rp)
+                return
+            g_, mm = pth.ctx.prove(z3.And((out.k.t - heff * k.t) % r == 0, out.t.t == 0))
+            require(rep, g_, "%s cofactor clearing of EVERY point (k, tau) is h_eff * (k, tau): exponent h_eff*k mod r, trivial cofactor component" % nm, pth.decisions, rp)
+        core.explore(run, on_path=on_path)
     with world.patched(h2c, multiply_clear_cofactor_G1=lambda q: ("C1", q), multiply_clear_cofactor_G2=lambda q: ("C2", q)):
         require(rep, h2c.clear_cofactor_G1("A") == ("C1", "A") and h2c.clear_cofactor_G2("B") == ("C2", "B"), "hash_to_curve's clear_cofactor_* delegate to the multiplications", None, rp)
     rep.trust("the cofactor torsion of E(F_p) has exponent dividing 1 - x and h_eff(G2) is a multiple of h2 acting as in RFC 9380 8.8.2 (Budroni-Pintore): clearing lands in the prime-order subgroup")
